@@ -464,19 +464,26 @@ def drv_build(case):
             m = _mk(c2)
         else:
             m = _mk(c2)
-        if proj.is_var(m) or m.errors() != []:
+        if proj.is_var(m):
             continue
+        # whether the recipe is in the property's domain is decided by TLC on what the recipe DENOTES (PuanCtor.Mk), not by the
+        # library's validation of what was built: a well-defined recipe built into an object that does not validate is an event
+        errs = sorted(str(getattr(x, "value", x)) for x in m.errors())
         tok = proj.Tok()
         table = []
         shared_ = {}
-        if not proj.is_var(m) and len(json.dumps(r)) % 3 == 0: _provoke(m, len(ids))
-        for k, vals in enumerate(itertools.product((0, 1), repeat=len(ids))):
-            asg = dict(zip(ids, vals))
-            interp_ = {i: _form(v, k, puan) for i, v in asg.items()}
-            if k % 4:
-                shared_.clear(); shared_.update(interp_); interp_ = shared_        # one dictionary object updated in place
-            table.append({"asg": proj.pairs_int(asg, tok), "ev": proj.bounds(m.evaluate(interp_))})
-        out.append({"op": "build", "via": via, "recipe": B.recipe_tokens(r, tok), "model": proj.node(m, tok), "table": table})
+        if not proj.is_var(m) and len(json.dumps(r)) % 3 == 0 and not errs: _provoke(m, len(ids))
+        try:
+            for k, vals in enumerate(itertools.product((0, 1), repeat=len(ids))):
+                asg = dict(zip(ids, vals))
+                interp_ = {i: _form(v, k, puan) for i, v in asg.items()}
+                if k % 4:
+                    shared_.clear(); shared_.update(interp_); interp_ = shared_        # one dictionary object updated in place
+                table.append({"asg": proj.pairs_int(asg, tok), "ev": proj.bounds(m.evaluate(interp_))})
+        except Exception:
+            if errs: continue                 # (an object that does not validate may not evaluate at all)
+            raise
+        out.append({"op": "build", "via": via, "recipe": B.recipe_tokens(r, tok), "model": proj.node(m, tok), "table": table, "errs": errs})
     return out
 
 # ----------------------------------------------------------------------------- C16 / C17
@@ -567,6 +574,13 @@ def _battery(m, box, tok, puan, is_cfg):
 
 def drv_b64(case):
     puan, pg = _mods()
+    for tw in case.get("twins", ()):
+        # another model with the same ids, bounds and thresholds all the way down (it differs in classes / defaults / tags only) is
+        # packed in the same process first
+        try:
+            B.build(tw).to_b64()
+        except Exception:
+            pass
     m = _mk(case)
     if not _valid(m): return []
     tok = proj.Tok()
@@ -640,7 +654,9 @@ def drv_b64(case):
             variants = [("F", numpy.asfortranarray(M), list(P.variables), list(P.index)),
                         ("T", numpy.ascontiguousarray(M.T).T, list(P.variables), list(P.index)),
                         ("num", M.copy(), [puan.variable.support_vector_variable()] + [puan.variable(j, (0, 3) if j % 2 else (-1, 1)) for j in range(1, M.shape[1])],
-                         list(range(M.shape[0])))]
+                         list(range(M.shape[0]))),
+                        # two columns labelled with the same id (priorities are kept by position)
+                        ("dup", M.copy(), list(P.variables)[:-1] + [list(P.variables)[1]] if M.shape[1] >= 3 else list(P.variables), list(P.index))]
             for tag, arr_, vs_, ix_ in variants:
                 try:
                     Pv = pnd.ge_polyhedron_config(arr_, default_prio_vector=numpy.array(P.default_prio_vector), variables=vs_, index=ix_)
@@ -1350,7 +1366,7 @@ def drv_solve(case):
                 except Exception as ex:
                     exc = type(ex).__name__
                 if not s.calls:
-                    out.append({"op": "solve", "model": pm, "exc": exc or "solver_not_called", "received": {"rows": [], "cols": [], "objectives": []},
+                    out.append({"op": "solve", "model": pm, "recipe": B.recipe_tokens(case["recipe"], tok), "exc": exc or "solver_not_called", "received": {"rows": [], "cols": [], "objectives": []},
                                 "direct": {"rows": [], "cols": []}, "objectives": [], "returned": [], "reported": [], "include_virtual": incl,
                                 "solver": mode, "enum": False, "reduced": red})
                     continue
@@ -1358,7 +1374,7 @@ def drv_solve(case):
                 returned = []
                 for sol in s.calls[0].get("answers", []):
                     returned.append({"none": sol[0] is None, "x": [proj.I(v) for v in sol[0]] if sol[0] is not None else []})
-                out.append({"op": "solve", "model": pm, "objectives": [[[tok(k), proj.I(v)] for k, v in o.items()] for o in objs],
+                out.append({"op": "solve", "model": pm, "recipe": B.recipe_tokens(case["recipe"], tok), "objectives": [[[tok(k), proj.I(v)] for k, v in o.items()] for o in objs],
                             "solver": mode, "include_virtual": incl, "received": {"rows": rc["rows"], "cols": rc["cols"], "objectives": rc["objectives"]},
                             "direct": {"rows": direct["rows"], "cols": direct["cols"]}, "returned": returned, "reported": reported, "exc": exc,
                             "enum": (not red) and _box_of_cols(rc["cols"]) <= (1 << 10), "after": proj.node(m, tok), "reduced": red})
